@@ -295,7 +295,14 @@ func (P *Prog) named(rel, name string) *types.Named {
 
 // Func resolves a package-level function.
 func (P *Prog) Func(rel, name string) *ssa.Function {
-	f, ok := P.obj(rel, name).(*types.Func)
+	o := P.pkg(rel).Types.Scope().Lookup(name)
+	if o == nil {
+		if fn := P.renamedFunc(rel, "", name); fn != nil {
+			return fn
+		}
+		undecidedf("symbol %s.%s not found", rel, name)
+	}
+	f, ok := o.(*types.Func)
 	if !ok {
 		undecidedf("%s.%s is not a function", rel, name)
 	}
@@ -303,6 +310,7 @@ func (P *Prog) Func(rel, name string) *ssa.Function {
 	if fn == nil {
 		undecidedf("no SSA for %s.%s", rel, name)
 	}
+	P.noteFunc(rel, "", name, fn)
 	return fn
 }
 
@@ -310,8 +318,12 @@ func (P *Prog) Func(rel, name string) *ssa.Function {
 func (P *Prog) Method(rel, typ, name string) *ssa.Function {
 	fn := P.methodOpt(rel, typ, name)
 	if fn == nil {
+		if fn = P.renamedFunc(rel, typ, name); fn != nil {
+			return fn
+		}
 		undecidedf("method %s.%s.%s not found", rel, typ, name)
 	}
+	P.noteFunc(rel, typ, name, fn)
 	return fn
 }
 
@@ -348,11 +360,15 @@ func (P *Prog) Field(rel, typ string, path ...string) *types.Var {
 				v = st.Field(i)
 			}
 		}
+		if v == nil && name == path[len(path)-1] {
+			v = P.renamedField(rel, typ, path, st)
+		}
 		if v == nil {
 			undecidedf("field %s not found in %s.%s (path %v)", name, rel, typ, path)
 		}
 		t = v.Type()
 	}
+	P.noteField(rel, typ, path, v)
 	return v
 }
 
